@@ -82,6 +82,8 @@ def run(pid, cfg, tier, seed, workdir, already_broken):
     t0 = time.time()
     if cfg.get("acc_check"):
         os.environ["MODEL_ACC_CHECK"] = "1"
+    if cfg.get("prot_check"):
+        os.environ["MODEL_PROT_CHECK"] = "1"
     results = []
     # corpus of minimised failing schedules first
     for rp in sorted(glob.glob(os.path.join(ROOT, "corpus/replays/%s/*.json" % pid))):
